@@ -18,7 +18,7 @@ fn sym_len() -> usize {
 }
 
 /// Pre-state for direct mode: arbitrary INV state, arbitrary device-visible memory.
-fn pre_direct<const N: usize>(b: &mut Backing<N>, chain0: Option<(usize, usize)>, maxch: usize) -> (VirtQueue<LHal, N>, Ghost<N>) {
+fn pre_direct<const N: usize>(b: &mut Backing<N>, chain0: Chain0, maxch: usize) -> (VirtQueue<LHal, N>, Ghost<N>) {
     lg_init();
     let mut q = mk_queue::<LHal, N>(b, kani::any(), false, kani::any(), kani::any());
     let g = gen_direct(&mut q, chain0, maxch);
@@ -141,8 +141,7 @@ fn add_direct_body<const N: usize, const NI: usize, const NO: usize>(maxch: usiz
 // pop_used() and the read-only queries, direct descriptors
 fn pop_direct_body<const N: usize, const NI: usize, const NO: usize>(maxch: usize) {
     let mut b = any_backing::<N>();
-    let (mut q, mut g) = pre_direct::<N>(&mut b, Some((NI + NO, NI)), maxch);
-    // chain 0 is the one whose buffers the caller holds
+    // chain 0 is the one whose buffers the caller holds (unsafe contract of pop_used: same buffers as at add)
     let c0 = NI + NO;
     let n_in = NI;
     let x: [[u8; 4]; MAXC] = kani::any();
@@ -152,20 +151,9 @@ fn pop_direct_body<const N: usize, const NI: usize, const NO: usize>(maxch: usiz
     let ins: [&[u8]; MAXC] = [&x[0][..lx[0]], &x[1][..lx[1]], &x[2][..lx[2]], &x[3][..lx[3]]];
     let [y0, y1, y2, y3] = &mut y;
     let mut outs: [&mut [u8]; MAXC] = [&mut y0[..ly[0]], &mut y1[..ly[1]], &mut y2[..ly[2]], &mut y3[..ly[3]]];
-    // the ledger entries of chain 0 are exactly these buffers (unsafe contract of pop_used)
-    let mut s = 0;
-    while s < MAXC {
-        if s < c0 {
-            let e = g.eb[0] + s;
-            let sh = unsafe { LG[e % MAXSH] };
-            if s < n_in {
-                kani::assume(sh.ptr == ins[s].as_ptr() as usize && sh.len == lx[s]);
-            } else {
-                kani::assume(sh.ptr == outs[s - n_in].as_ptr() as usize && sh.len == ly[s - n_in]);
-            }
-        }
-        s += 1;
-    }
+    let bp: [usize; MAXC] = core::array::from_fn(|s| if s < NI { ins[s].as_ptr() as usize } else { outs[(s - NI) % MAXC].as_ptr() as usize });
+    let bl: [usize; MAXC] = core::array::from_fn(|s| if s < NI { lx[s] } else { ly[(s - NI) % MAXC] });
+    let (mut q, mut g) = pre_direct::<N>(&mut b, Some((NI + NO, NI, bp, bl)), maxch);
     // device contract: m completions pending, the first one names an outstanding chain
     let lu = q.last_used_idx;
     let uidx = b.used.idx.load(Ordering::Relaxed);
@@ -253,7 +241,7 @@ fn add_indirect_body<const N: usize, const NI: usize, const NO: usize>(maxch: us
     let mut b = any_backing::<N>();
     lg_init();
     let mut q = mk_queue::<LHal, N>(&mut b, kani::any(), true, kani::any(), kani::any());
-    let (mut g, mut tbl) = gen_indirect(&mut q, 0, 0, if maxch < K { maxch } else { K - 1 });
+    let (mut g, mut tbl) = gen_indirect(&mut q, 0, 0, ([0; MAXC], [0; MAXC]), if maxch < K { maxch } else { K - 1 });
     let dev0 = dev_snap(&b);
     let p0 = priv_snap(&q);
     let n0 = unsafe { LG_N };
@@ -383,7 +371,6 @@ fn pop_indirect_body<const N: usize, const NI: usize, const NO: usize>(maxch: us
     let mut b = any_backing::<N>();
     lg_init();
     let mut q = mk_queue::<LHal, N>(&mut b, kani::any(), true, kani::any(), kani::any());
-    let (mut g, mut tbl) = gen_indirect(&mut q, nb0, NI, maxch);
     let n_in = NI;
     let x: [[u8; 4]; MAXC] = kani::any();
     let mut y: [[u8; 4]; MAXC] = kani::any();
@@ -392,18 +379,9 @@ fn pop_indirect_body<const N: usize, const NI: usize, const NO: usize>(maxch: us
     let ins: [&[u8]; MAXC] = [&x[0][..lx[0]], &x[1][..lx[1]], &x[2][..lx[2]], &x[3][..lx[3]]];
     let [y0, y1, y2, y3] = &mut y;
     let mut outs: [&mut [u8]; MAXC] = [&mut y0[..ly[0]], &mut y1[..ly[1]], &mut y2[..ly[2]], &mut y3[..ly[3]]];
-    let mut s = 0;
-    while s < MAXC {
-        if s < nb0 {
-            let sh = unsafe { LG[g.eb[0] + s] };
-            if s < n_in {
-                kani::assume(sh.ptr == ins[s].as_ptr() as usize && sh.len == lx[s]);
-            } else {
-                kani::assume(sh.ptr == outs[s - n_in].as_ptr() as usize && sh.len == ly[s - n_in]);
-            }
-        }
-        s += 1;
-    }
+    let bp: [usize; MAXC] = core::array::from_fn(|s| if s < NI { ins[s].as_ptr() as usize } else { outs[(s - NI) % MAXC].as_ptr() as usize });
+    let bl: [usize; MAXC] = core::array::from_fn(|s| if s < NI { lx[s] } else { ly[(s - NI) % MAXC] });
+    let (mut g, mut tbl) = gen_indirect(&mut q, nb0, NI, (bp, bl), maxch);
     let lu = q.last_used_idx;
     let uidx = b.used.idx.load(Ordering::Relaxed);
     let m = uidx.wrapping_sub(lu);
@@ -501,7 +479,7 @@ fn gen_indirect_in_inv_4() {
     let mut b = zero_backing::<4>();
     lg_init();
     let mut q = mk_queue::<LHal, 4>(&mut b, kani::any(), true, kani::any(), kani::any());
-    let (g, tbl) = gen_indirect(&mut q, 2, 1, 3);
+    let (g, tbl) = gen_indirect(&mut q, 2, 1, ([kani::any(), kani::any(), kani::any(), kani::any()], [1, 2, 3, 4]), 3);
     assert!(inv_indirect(&q, &g, &tbl), "harness: generated pre-state must satisfy INV");
     kani::cover!(g.cnt[2] == 1 && g.nbuf[1] == 1 && g.nbuf[2] == 3);
     core::mem::forget(q);
